@@ -26,7 +26,7 @@ impl EEA {
 
     pub fn encrypt(&mut self, msg: &[u32], ilen: u32) -> Vec<u32> {
         let mut rs = vec![];
-        let keylength = (ilen + 31) / 32;
+        let keylength = ((ilen as u64 + 31) / 32) as u32;
         let keys = self.zuc.generate_keystream(keylength as usize);
         let keys = keys.as_slice();
         for i in 0..keylength as usize {
